@@ -2,6 +2,7 @@ import Ptn.C10.Model
 import Ptn.C10.Spec
 import Ptn.C10.Lemmas
 import Ptn.C10.Telescoping
+import Ptn.C10.Tree
 /-! Property theorems for C10 (selection rule of the singular-value truncation).  Only property
 theorems and non-vacuity examples live here; helper lemmas are in `Lemmas.lean`, the
 specification vocabulary (`Desc`, `NonNeg`, `survives`, `Fits`, `capMin`, `renormFactor`) in
